@@ -384,3 +384,162 @@ class C13(IRCheck):
             gs.append([case("q%d" % i, "poss", t, root, envs)])
             i += 1
         return gs
+
+
+def mutate_point(rng, t, i):
+    """a copy of node i of table t with one point mutation somewhere in its tree; returns new index"""
+    n = dict(t.nodes[i - 1])
+    kids = n.get("a", [])
+    if kids and rng.random() < 0.6:
+        a = list(kids)
+        k = rng.randrange(len(a))
+        a[k] = mutate_point(rng, t, a[k])
+        n["a"] = a
+        return t._intern(n)
+    c = rng.random()
+    if n["k"] == "c" and c < 0.5:
+        b = list(n["b"])
+        k = rng.randrange(len(b))
+        b[k] = (b[k] + 1 + rng.randrange(255)) % 256
+        n["b"] = b
+    elif n["k"] in ("r", "m") and c < 0.5:
+        n["n"] = n["n"] + "x"
+    elif n["k"] == "b" and c < 0.4:
+        n["o"] = n["o"] % 6 + 1
+    elif n["k"] in ("b", "l") and c < 0.7 and n["a"][0] != n["a"][1]:
+        a = list(n["a"])
+        a[0], a[1] = a[1], a[0]
+        n["a"] = a
+    else:
+        n["w"] = n["w"] % 255 + 1
+        if n["k"] == "c":
+            n["b"] = (list(n["b"]) + [0] * 255)[:n["w"]]
+    return t._intern(n)
+
+
+class C28(Check):
+    pid = "C28"
+    family = "struct"
+    module = "TraceStruct"
+    mc = [("BV_MC", "BV_MC")]
+    level_text = ("Trace validation against the structural definitions of spec/ExprIR.tla and TraceStruct (tree of a node, "
+                  "pre-order listing, bottom-up substitution): every recorded call of Equal, FindAll, ReplaceAll, Exprs and "
+                  "EffectApply is judged by TLC on hash-consed expression tables (structural equality = same index).")
+    level_note = ("Trusted: TLC, Json module, the harness's hash-consing serialiser and its six named replacement functions "
+                  "(mirrored in TraceStruct!Repl). Seeded random DAGs of depth <= 5 with every node kind; single-point mutations.")
+    technique = "TLA+ structural specification as oracle; TLC trace validation of recorded calls"
+    trusted = ["Go harness: hash-consing serialiser, named replacement functions", "TLC, CommunityModules Json"]
+    rule = ("cases on seeded random DAGs (all node kinds, widths 1-8, shared subtrees): Equal on (e, e), (e, independently "
+            "rebuilt e), (e, every kind of single-point mutation of e: width, operator, key, constant byte, swapped "
+            "children, at any depth) and unrelated pairs; FindAll for each of the 5 kinds (pre-order, with repetitions); "
+            "ReplaceAll with 6 named functions (register -> constant, zero constant -> 9, Add -> Nand, load -> register, "
+            "conditional -> its true branch, never-matching) compared with bottom-up substitution and 'same tree when "
+            "nothing matches'; Exprs / EffectApply on register and memory effects; non-trivial = expression with >= 3 "
+            "nodes; distinct by (op, table, operands)")
+    assumptions = ["'the same tree' is observed structurally (the harness cannot observe pointer identity)"]
+
+    def nontrivial_key(self, group, events):
+        c = group[0]
+        if len(c["nodes"]) < 3:
+            return None
+        return repr((c["op"], c["nodes"], c.get("a"), c.get("b"), c.get("kind"), c.get("eff")))
+
+    def groups(self, tier, seed):
+        rng = random.Random(seed * 217645199 + 28)
+        n = 500 if tier == "quick" else 8000
+        gs, k = [], 0
+
+        def add(c):
+            nonlocal k
+            c["case"] = "s%d" % k
+            c.setdefault("a", 0)
+            c.setdefault("b", 0)
+            c.setdefault("kind", "")
+            k += 1
+            gs.append([c])
+        for i in range(n):
+            t = Table()
+            g = ExprGen(rng, widths=(1, 2, 4, 8), p_less=0.25, p_mem=0.15)
+            a = g.gen(t, rng.choice([1, 2, 3, 3, 4, 5]))
+            b = g.gen(t, rng.choice([0, 1, 2, 3]))
+            m = mutate_point(rng, t, a)
+            m2 = mutate_point(rng, t, m)
+            add({"op": "equal", "nodes": t.nodes, "a": a, "b": a})
+            add({"op": "equal", "nodes": t.nodes, "a": a, "b": m})
+            add({"op": "equal", "nodes": t.nodes, "a": m, "b": m2})
+            add({"op": "equal", "nodes": t.nodes, "a": a, "b": b})
+            for kind in "crblm":
+                add({"op": "find", "nodes": t.nodes, "a": a, "kind": kind})
+            for name in ("r", "c", "b", "m", "l", "none"):
+                add({"op": "replace", "nodes": t.nodes, "a": a, "kind": name})
+            if i % 2:
+                eff = {"e": "reg", "n": rng.choice(["x1", "x2"]), "w": rng.choice([1, 2, 4, 8]), "v": a, "a": 0}
+            else:
+                eff = {"e": "mem", "n": rng.choice(["m1", "m2"]), "w": rng.choice([1, 2, 4, 8]), "v": a, "a": b}
+            add({"op": "exprs", "nodes": t.nodes, "eff": eff})
+            add({"op": "effapply", "nodes": t.nodes, "eff": eff})
+        return gs
+
+
+class C27(Check):
+    pid = "C27"
+    family = "const"
+    module = "TraceConst"
+    mc = [("BV_MC", "BV_MC")]
+    exhaustive = True
+    level_text = ("Trace validation against the encoding rules of TraceConst (two's-complement byte encodings over BV): every "
+                  "recorded constructor / read-back call is judged by TLC; exhaustive over Go integer types x widths x the "
+                  "boundary values of every width, and over all 8-bit values.")
+    level_note = "Trusted: TLC, Json module, BV (BV_MC-checked), the harness's integer (de)serialisation."
+    technique = "TLA+ encoding specification as oracle; exhaustive boundary inputs; TLC trace validation"
+    trusted = ["Go harness: 8-byte integer transport", "TLC, CommunityModules Json"]
+    rule = ("NewConstUint/NewConstInt/ConstFrom*: Go types u8..u64, i8..i64 x widths {1,2,3,4,5,7,8,9,16} x values: every "
+            "boundary of every width inside the type's range (0, +-1, 2^(8k-1)-1, 2^(8k-1), 2^(8k)-1, 2^(8k), their "
+            "negations, +-1 around) plus all 256 one-byte values and seeded random; ConstUint[T] read-back and WithWidth on "
+            "constants of widths 1..16 with zero / non-zero upper bytes; NewConst aliasing (source slice overwritten after "
+            "construction); non-trivial = non-zero value; distinct by (op, type, value, width)")
+    assumptions = ["integers wider than 64 bits do not exist in the API"]
+
+    def nontrivial_key(self, group, events):
+        c = group[0]
+        if not any(c.get("val") or []) and not any(c.get("b") or []):
+            return None
+        return repr((c["op"], c["t"], c.get("val"), c["w"], c.get("b")))
+
+    def groups(self, tier, seed):
+        rng = random.Random(seed * 236887699 + 27)
+        gs, k = [], 0
+        types = {"u8": (0, 255), "u16": (0, 65535), "u32": (0, 2 ** 32 - 1), "u64": (0, 2 ** 64 - 1),
+                 "i8": (-128, 127), "i16": (-2 ** 15, 2 ** 15 - 1), "i32": (-2 ** 31, 2 ** 31 - 1), "i64": (-2 ** 63, 2 ** 63 - 1)}
+        cand = set(range(-2, 3)) | set(range(120, 135)) | set(range(250, 260))
+        for kb in range(1, 9):
+            for base in (2 ** (8 * kb - 1), 2 ** (8 * kb)):
+                for d in (-2, -1, 0, 1, 2):
+                    cand.add(base + d)
+                    cand.add(-(base + d))
+        cand |= set(range(256)) | {-x for x in range(256)}
+        widths = [1, 2, 3, 4, 5, 7, 8, 9, 16]
+        for t, (lo, hi) in types.items():
+            vals = sorted(v for v in cand if lo <= v <= hi)
+            vals += [rng.randrange(lo, hi + 1) for _ in range(20 if tier == "quick" else 300)]
+            for v in vals:
+                enc = [((v % (1 << 64)) >> (8 * i)) & 255 for i in range(8)]
+                ws = widths if (tier == "thorough" or abs(v) > 300 or v in (0, 1, -1, 127, 128, 255, 256, -128, -129, 200)) else rng.sample(widths, 3)
+                for w in ws:
+                    gs.append([{"case": "n%d" % k, "op": "newuint" if t[0] == "u" else "newint", "t": t, "val": enc, "w": w, "b": []}])
+                    k += 1
+                gs.append([{"case": "f%d" % k, "op": "fromuint" if t[0] == "u" else "fromint", "t": t, "val": enc, "w": 0, "b": []}])
+                k += 1
+        for i in range(400 if tier == "quick" else 5000):
+            w = rng.choice([1, 2, 3, 4, 7, 8, 9, 12, 16])
+            b = edge_bytes(rng, w)
+            if rng.random() < 0.5:      # zero upper part: fits some types
+                z = rng.randrange(0, w + 1)
+                b = b[:z] + [0] * (w - z)
+            t = rng.choice(["u8", "u16", "u32", "u64"])
+            gs.append([{"case": "r%d" % k, "op": "readuint", "t": t, "val": [], "w": 0, "b": b}])
+            gs.append([{"case": "w%d" % k, "op": "withwidth", "t": "", "val": [], "w": rng.choice([1, 2, 3, 4, 8, 9, 16, 32]), "b": b}])
+            src = edge_bytes(rng, rng.choice([1, 2, 4, 8, 16]))
+            gs.append([{"case": "a%d" % k, "op": "alias", "t": "", "val": [], "w": rng.choice([len(src), max(1, len(src) // 2), len(src) + 3]), "b": src}])
+            k += 1
+        return gs
